@@ -49,6 +49,55 @@ fn process_part(res: &mut PartResult, racers: usize) {
     // emissions before any install go nowhere
     metrics::counter!("pre").increment(1);
     metrics::describe_counter!("pre", "x");
+    // Bystander threads that are in different states when the installation happens; afterwards, outside any local scope,
+    // each of them emits once and must reach the installed recorder ("every later emission on any thread without a local
+    // recorder"). 0: emitted outside any scope before (looked the empty cell up); 1: inside with_local_recorder during the
+    // installation; 2: holds a set_default_local_recorder guard across it; 3: entered and left a local scope before it;
+    // 4: did nothing before.
+    const BYSTANDERS: usize = 5;
+    let local_hits: Arc<Vec<AtomicUsize>> = Arc::new((0..1).map(|_| AtomicUsize::new(0)).collect());
+    let local_drops: Arc<Vec<AtomicUsize>> = Arc::new((0..1).map(|_| AtomicUsize::new(0)).collect());
+    let ready = Arc::new(std::sync::Barrier::new(BYSTANDERS + 1));
+    let installed = Arc::new(std::sync::Barrier::new(BYSTANDERS + 1));
+    let by: Vec<_> = (0..BYSTANDERS)
+        .map(|k| {
+            let (ready, installed, lh, ld) = (ready.clone(), installed.clone(), local_hits.clone(), local_drops.clone());
+            std::thread::spawn(move || {
+                let local: &'static D = Box::leak(Box::new(D { id: 0, magic: 0xabc0, hits: lh, drops: ld }));
+                match k {
+                    0 => {
+                        metrics::counter!("by_pre").increment(1);
+                        ready.wait();
+                        installed.wait();
+                    }
+                    1 => metrics::with_local_recorder(local, || {
+                        metrics::counter!("by_local").increment(1);
+                        ready.wait();
+                        installed.wait();
+                        metrics::counter!("by_local").increment(1);
+                    }),
+                    2 => {
+                        let g = metrics::set_default_local_recorder(local);
+                        ready.wait();
+                        installed.wait();
+                        metrics::counter!("by_local").increment(1);
+                        drop(g);
+                    }
+                    3 => {
+                        metrics::with_local_recorder(local, || metrics::counter!("by_local").increment(1));
+                        ready.wait();
+                        installed.wait();
+                    }
+                    _ => {
+                        ready.wait();
+                        installed.wait();
+                    }
+                }
+                metrics::describe_counter!("by_post", "x");
+            })
+        })
+        .collect();
+    ready.wait();
     let barrier = Arc::new(std::sync::Barrier::new(racers));
     let hs: Vec<_> = (0..racers)
         .map(|i| {
@@ -69,8 +118,14 @@ fn process_part(res: &mut PartResult, racers: usize) {
         })
         .collect();
     let outs: Vec<Result<(), bool>> = hs.into_iter().map(|h| h.join().unwrap()).collect();
+    let pre_hits: usize = hits.iter().map(|h| h.load(Ordering::SeqCst)).sum();
+    installed.wait();
+    for h in by {
+        h.join().unwrap();
+    }
+    let by_hits: usize = hits.iter().map(|h| h.load(Ordering::SeqCst)).sum::<usize>() - pre_hits;
     res.executions = 1;
-    res.transitions = racers as u64 + 4;
+    res.transitions = racers as u64 + 4 + 2 * BYSTANDERS as u64;
     res.states = 1;
     res.distinct_outcomes = 1;
     let winners: Vec<usize> = outs.iter().enumerate().filter(|(_, o)| o.is_ok()).map(|(i, _)| i).collect();
@@ -84,8 +139,16 @@ fn process_part(res: &mut PartResult, racers: usize) {
         return;
     }
     let w = winners[0];
-    if hits.iter().map(|h| h.load(Ordering::SeqCst)).sum::<usize>() != 0 {
+    if pre_hits != 0 {
         res.violation("emission-before-install-had-effect", "an emission made before any installation reached a recorder".into(), replay);
+        return;
+    }
+    if by_hits != BYSTANDERS || hits[w].load(Ordering::SeqCst) != BYSTANDERS {
+        res.violation("emission-lost-after-install", format!("{} of {} threads that were busy with local scopes / earlier emissions during the installation reached the installed recorder with the emission they made afterwards outside any scope", hits[w].load(Ordering::SeqCst), BYSTANDERS), replay);
+        return;
+    }
+    if local_hits[0].load(Ordering::SeqCst) != 4 {
+        res.violation("local-scope-emission-misrouted", format!("{} of 4 emissions made inside local scopes reached the local recorder", local_hits[0].load(Ordering::SeqCst)), replay);
         return;
     }
     let t = std::thread::spawn(|| {
@@ -103,8 +166,8 @@ fn process_part(res: &mut PartResult, racers: usize) {
     metrics::describe_histogram!("post_h", "z");
     for (i, h) in hits.iter().enumerate() {
         let n = h.load(Ordering::SeqCst);
-        if i == w && n != 4 {
-            res.violation("emission-lost-after-install", format!("winner saw {} of 4 emissions", n), replay);
+        if i == w && n != 4 + BYSTANDERS {
+            res.violation("emission-lost-after-install", format!("winner saw {} of {} emissions", n, 4 + BYSTANDERS), replay);
             return;
         }
         if i != w && n != 0 {
@@ -143,7 +206,7 @@ fn main() {
     driver::main(CheckDef {
         prop: "C02",
         level: "model_checking",
-        rule: "loom explores every execution (C11 memory model incl. acquire/release and UnsafeCell access ordering) of N installers racing set() with readers doing try_load()+dispatch on a fresh RecorderOnceCell compiled from /repo/metrics/src/recorder/cell.rs, up to the stated preemption bound (none = unbounded); plus one history per run on the real process-global cell; distinct = distinct (winner, reader observation) outcomes",
+        rule: "loom explores every execution (C11 memory model incl. acquire/release and UnsafeCell access ordering) of N installers racing set() with readers doing try_load()+dispatch on a fresh RecorderOnceCell compiled from /repo/metrics/src/recorder/cell.rs, up to the stated preemption bound (none = unbounded); plus one history per run on the real process-global cell (2 / 4 racing installers; five bystander threads that emitted before, sit inside with_local_recorder, hold a local-recorder guard, have left a local scope, or did nothing when the installation happens, and afterwards emit outside any scope: all must reach the installed recorder); distinct = distinct (winner, reader observation) outcomes",
         assumptions: &["loom's model of the C11 memory model", "the path-included cell.rs is the file the metrics crate compiles (same source file, loom types substituted by the cfg(metrics_verif_loom) import twin)", "set_global_recorder/with_recorder wrap the cell without further synchronisation (checked by the process-level part)"],
         parts,
         run,
